@@ -2,7 +2,7 @@
 # usage: tools/run_all.sh <quick|thorough>  -- runs every claimed check sequentially, prints a summary
 TIER="${1:-quick}"
 cd "$(dirname "$0")/.."
-for id in C01 C02 C03 C04 C05 C06 C07 C08 C09 C10 C11 C12 C13 C14 C15 C17 C18 C19 C20; do
+for id in C01 C02 C03 C04 C05 C06 C07 C08 C09 C10 C11 C12 C13 C14 C15 C16 C17 C18 C19 C20; do
   S=$(date +%s)
   ./tools/check.sh $id $TIER > /tmp/runall_$id.$TIER.log 2>&1
   RC=$?
